@@ -1293,10 +1293,10 @@ var hitLimit = func() int {
 	return 3
 }()
 
-// roundtrip records a monitor hit; at most three hits per monitor name are kept in full
+// roundtrip records a monitor hit; at most two hits per monitor name are kept in full
 func (h *H) roundtrip(name string, in lib.T, detail string) {
 	h.roundtripHits[name]++
-	if h.roundtripHits[name] <= 3 || (hitLimit > 3 && !strings.HasPrefix(name, "roundtrip")) {
+	if h.roundtripHits[name] <= 2 || (hitLimit > 3 && !strings.HasPrefix(name, "roundtrip")) {
 		h.o.Monitor(name, in, detail)
 	} else {
 		h.o.Stats["monitor:"+name]++
